@@ -104,7 +104,7 @@ func (Engine) Generate(r *simcore.RNG, tier string, idx int) *simcore.Plan {
 		if cl == 1 {
 			clw = 1
 		}
-		switch r.Weighted([]int{14, 12, 10, 10, 5, 8, 8, 7 * clw, 4 * clw, 3 * clw, 6, 13, 3, 2, 4}) {
+		switch r.Weighted([]int{14, 12, 10, 10, 5, 8, 8, 7 * clw, 4 * clw, 3 * clw, 6, 13, 3, 2, 4, 3}) {
 		case 0:
 			st.Op = "lock"
 			kind := r.Weighted([]int{70, 0, 4, 6})
@@ -164,8 +164,12 @@ func (Engine) Generate(r *simcore.RNG, tier string, idx int) *simcore.Plan {
 		case 14:
 			st.Op = "beginall" // the bulk message: must refuse as a whole while one of the owner's locks is delegated
 			st.A = []int64{r.Range(0, 3)}
+		case 15:
+			// governance takes a share denomination off the superfluid asset list, or puts it back
+			st.Op = "govasset"
+			st.A = []int64{r.Range(0, 1)}
 		}
-		if faults && r.Chance(0.2) && st.Op != "advance" && st.Op != "sweep" && st.Op != "restart" {
+		if faults && r.Chance(0.2) && st.Op != "advance" && st.Op != "sweep" && st.Op != "restart" && st.Op != "govasset" {
 			if r.Chance(0.35) {
 				st.F = "abort"
 			} else {
@@ -229,7 +233,8 @@ type world struct {
 	locks      map[uint64]*refLock
 	shares     []osmomath.Int // gamm shares acquired per owner
 	baseSupply osmomath.Int
-	ops        map[string]int // lock operations per intermediary account since the last refresh
+	ops        map[string]int  // lock operations per intermediary account since the last refresh
+	unsettled  map[string]bool // denominations whose listing governance changed since the last refresh
 }
 
 func (w *world) sortedIDs() []uint64 {
@@ -299,7 +304,7 @@ func (w *world) checkSupply(ctx sdk.Context, op string) bool {
 
 func (Engine) Execute(run *simcore.Run) {
 	p := run.Plan
-	w := &world{run: run, locks: map[uint64]*refLock{}, ops: map[string]int{}}
+	w := &world{run: run, locks: map[uint64]*refLock{}, ops: map[string]int{}, unsettled: map[string]bool{}}
 	w.owners = int(p.Cfg("owners", 3))
 	w.vals = int(p.Cfg("vals", 2))
 	w.trader = w.owners
@@ -363,6 +368,7 @@ func (Engine) Execute(run *simcore.Run) {
 			// the superfluid BeginBlocker refreshed multipliers and delegations in this block
 			run.Probe("epoch-refresh")
 			w.ops = map[string]int{}
+			w.unsettled = map[string]bool{}
 			run.Logf("  refresh h=%d epoch=%d", n.Height, ei.CurrentEpoch)
 			if !w.stakeOracle(n.QueryCtx(), "epoch-refresh", true) {
 				return false
@@ -426,6 +432,35 @@ func (Engine) Execute(run *simcore.Run) {
 			run.Event(st.Op, "ok")
 			run.Logf("%d %s %v -> h=%d t=%s hash=%x", i, st.Op, st.A, n.Height, n.Time.Sub(simchain.GenesisTime), n.LastAppHash[:6])
 			if !w.oracle("block") {
+				return
+			}
+			continue
+		}
+		if st.Op == "govasset" {
+			denom := w.denoms[int(st.Arg(0))%len(w.denoms)]
+			var err error
+			what := "removed"
+			if asset, e := n.App.SuperfluidKeeper.GetSuperfluidAsset(n.Ctx, denom); e == nil && asset.Denom == denom {
+				err = sfgov.HandleRemoveSuperfluidAssetsProposal(n.Ctx, *n.App.SuperfluidKeeper, &sftypes.RemoveSuperfluidAssetsProposal{Title: "sf", Description: "sf", SuperfluidAssetDenoms: []string{denom}})
+				run.Probe("superfluid-asset-removed")
+			} else {
+				what = "listed again"
+				at := sftypes.SuperfluidAssetTypeLPShare
+				if denom == w.clDenom {
+					at = sftypes.SuperfluidAssetTypeConcentratedShare
+				}
+				err = sfgov.HandleSetSuperfluidAssetsProposal(n.Ctx, *n.App.SuperfluidKeeper, *n.App.EpochsKeeper, &sftypes.SetSuperfluidAssetsProposal{Title: "sf", Description: "sf", Assets: []sftypes.SuperfluidAsset{{Denom: denom, AssetType: at}}})
+				run.Probe("superfluid-asset-listed-again")
+			}
+			if err != nil {
+				panic(fmt.Sprintf("harness: governance change of %s failed: %v", denom, err))
+			}
+			// the multiplier changes at once, stake follows at the next refresh: nothing is
+			// demanded of this denomination's stake in between
+			w.unsettled[denom] = true
+			run.Event(st.Op, "ok")
+			run.Logf("%d govasset %s %s", i, denom, what)
+			if !w.checkSupply(n.Ctx, "govasset") || !w.oracle("govasset") {
 				return
 			}
 			continue
@@ -946,6 +981,9 @@ func (w *world) stakeOracle(ctx sdk.Context, op string, exact bool) bool {
 					run.Fail("C11", "stake-after-refresh", class, "height %d, right after the epoch refresh: intermediary account (%s, validator %d) has %s staked, the %d locks delegated through it sum to %s shares, worth %s x %s x %s = %s uosmo", n.Height, denom, v, stake.FloatString(3), cnt, sum, sum, m.FloatString(18), oneMinusRf.FloatString(18), V.FloatString(6))
 					return false
 				}
+				continue
+			}
+			if w.unsettled[denom] {
 				continue
 			}
 			run.Max("max/stake-between-epochs-milliunits", int64(milli))
